@@ -10,7 +10,7 @@ with lookup list `ll`, GDEF `gd`, lookup indices `lookups` and persistent stack 
 All theorems quantify over ARBITRARY tables: nothing relates coverage indices, class
 values, lookup / sequence / filtering-set indices to the sizes of what they index.
 -/
-import SfntV.Proofs.ShapeSafeNested
+import SfntV.Proofs.ShapeSafeFull
 
 namespace SfntV.Props.C07
 open SfntV SfntV.Shape
@@ -102,22 +102,69 @@ theorem C07_no_panic_partial (B : Nat) (ll : LookupList) (gd : Gdef) (lookups : 
 
 /-- **No panic**, second class: guarded lookup lists WITH contextual subtables (contexts 1–3,
 chained contexts 1–3, arbitrarily nested and self-referential, any number of actions, any
-sequence indices) in which every nested action runs a length-preserving lookup, i.e. one
-without multiple (GSUB 2.1) and ligature (GSUB 4.1) substitutions — `nestedFixedLL`.  Lookups
-applied at the top level may be of any type.  The proof carries the well-formedness of the
-stack of nested actions (recorded positions and `EndPos` inside the sequence) through the
-loop over the actions. -/
-theorem C07_no_panic_nested_fixed (B : Nat) (ll : LookupList) (gd : Gdef) (lookups : List Nat)
-    (seq : List Glyph) (hg : guardedLL ll = true) (hn : nestedFixedLL ll = true) (site : String) :
+sequence indices) in which no nested action runs a lookup containing a ligature substitution
+(GSUB 4.1) — `nestedMergeFreeLL`.  Nested actions may insert glyphs (GSUB 2.1: `fixStackInsert`
+is covered), and lookups applied at the top level may be of any type, ligatures included.  The
+proof carries the well-formedness of the stack of nested actions (recorded positions and
+`EndPos` inside the sequence) through the loop over the actions. -/
+theorem C07_no_panic_nested_mergefree (B : Nat) (ll : LookupList) (gd : Gdef) (lookups : List Nat)
+    (seq : List Glyph) (hg : guardedLL ll = true) (hn : nestedMergeFreeLL ll = true) (site : String) :
     Shape.apply B ll gd lookups [] seq ≠ .panic site :=
   (applyLookups_safeN B ll gd hg hn lookups ⟨seq, []⟩ rfl).noPanic site
 
-/-- The full statement, for ALL guarded lookup lists (nested actions that insert or merge
-glyphs included): it needs the well-formedness of the stack to be preserved by
-`fixStackInsert`/`fixStackMerge`; not proved yet.  The direct stream
-`shape.safe` evaluates exactly this statement on the real code for every generated guarded
-case. -/
-def C07_no_panic_full : Prop :=
+/-- **No panic — the full statement.**  For every lookup list in the shape the reader
+delivers (`readerShapedLL`: `guardedLL`, and every chained context format 3 has at least one
+input coverage — `readChainedSeqContext3` rejects 0), every GDEF table, every list of lookup
+indices and every glyph sequence, a call on a context with an empty stack never panics:
+contextual lookups of all six formats, arbitrarily nested and self-referential, with any number
+of actions and any sequence / lookup / class / mark-class / filtering-set indices, whose nested
+actions may insert glyphs (GSUB 2.1, `fixStackInsert`) and merge glyphs (GSUB 4.1,
+`fixStackMerge` as repaired for §9 #33).  The proof carries the invariant
+`0 ≤ InputPos[i] < EndPos ≤ len(seq)`, `InputPos` sorted, `EndPos` non-decreasing from the top
+of the stack to the bottom, through `fixStackInsert`, `fixStackMerge` (two-pointer walk,
+`slices.BinarySearch`, insertion/deletion of the merge position) and the loop over the nested
+actions.  Together with `C07_stack_empty` the stack IS empty at every call of a history. -/
+theorem C07_no_panic (B : Nat) (ll : LookupList) (gd : Gdef) (lookups : List Nat)
+    (seq : List Glyph) (h : readerShapedLL ll = true) (site : String) :
+    Shape.apply B ll gd lookups [] seq ≠ .panic site :=
+  (applyLookups_full B ll gd h lookups ⟨seq, []⟩ rfl).noPanic site
+
+/-- No call of any history on one context panics (consequence of `C07_no_panic` and
+`C07_history_independent`). -/
+theorem C07_no_panic_history (B : Nat) (ll : LookupList) (gd : Gdef) (lookups : List Nat)
+    (hist : List (List Glyph)) (h : readerShapedLL ll = true) (site : String) :
+    Outcome.panic site ∉ runHistory B ll gd lookups [] hist := by
+  rw [C07_history_independent]
+  intro hmem
+  have : ∀ (l : List (Outcome St)), Outcome.panic site ∈ cutAtFailure l → Outcome.panic site ∈ l := by
+    intro l
+    induction l with
+    | nil => intro h; cases h
+    | cons o os ih =>
+      intro h
+      cases o with
+      | ok s =>
+        simp only [cutAtFailure] at h
+        rcases List.mem_cons.mp h with h | h
+        · cases h
+        · exact List.mem_cons_of_mem _ (ih h)
+      | err e =>
+        simp only [cutAtFailure] at h
+        rcases List.mem_cons.mp h with h | h
+        · cases h
+        · cases h
+      | panic p =>
+        simp only [cutAtFailure] at h
+        rcases List.mem_cons.mp h with h | h
+        · rw [h]; exact List.mem_cons_self
+        · cases h
+  obtain ⟨s, _, hs⟩ := List.mem_map.mp (this _ hmem)
+  exact C07_no_panic B ll gd lookups s h site hs
+
+/-- What remains open: API-built lists that are `guardedLL` but contain a chained context
+format 3 with an EMPTY input sequence (a shape the reader cannot deliver) and a nested ligature
+substitution.  No panic was found there by the generator either (stream `shape.safe`). -/
+def C07_no_panic_guarded_only : Prop :=
   ∀ (B : Nat) (ll : LookupList) (gd : Gdef) (lookups : List Nat) (seq : List Glyph),
     guardedLL ll = true → ∀ site, Shape.apply B ll gd lookups [] seq ≠ .panic site
 
@@ -144,6 +191,7 @@ def exSeq : List Glyph := [⟨1, [97], 0, 0, 0⟩, ⟨10, [98], 0, 0, 0⟩, ⟨1
 
 /-- the call returns, with one ligature glyph carrying all three runes, and an empty stack -/
 example : Shape.apply 64 exLL exGdef [0] [] exSeq = .ok ⟨[⟨1, [97, 98, 99], 0, 0, 0⟩], []⟩ := by decide
+example : readerShapedLL exLL = true ∧ nestedMergeFreeLL exLL = false ∧ simpleLL exLL = false := by decide
 
 /-- a guarded list without contextual subtables that does something: multiple substitution
 followed by a ligature over a skipped mark -/
@@ -153,15 +201,17 @@ def exSimple : LookupList :=
 
 example : guardedLL exSimple = true ∧ simpleLL exSimple = true := by decide
 
-/-- a guarded list with a self-referential context whose nested lookups preserve the length -/
+/-- a guarded list with a self-referential context whose nested lookups substitute and insert -/
 def exNested : LookupList :=
-  [⟨0, 0, [.chain1 [(1, 0)] [[⟨[2], [3], [], [⟨1, 1⟩, ⟨0, 0⟩, ⟨7, 1⟩]⟩]]]⟩,
-   ⟨0, 0, [.gsub12 [(1, 0), (3, 1)] [5, 6]]⟩]
+  [⟨0, 0, [.chain1 [(1, 0)] [[⟨[2], [3], [], [⟨1, 1⟩, ⟨0, 0⟩, ⟨7, 1⟩, ⟨0, 2⟩]⟩]]]⟩,
+   ⟨0, 0, [.gsub12 [(1, 0), (3, 1)] [5, 6]]⟩,
+   ⟨0, 0, [.gsub21 [(1, 0)] [[1, 4, 4]]]⟩]
 
-example : guardedLL exNested = true ∧ nestedFixedLL exNested = true ∧ simpleLL exNested = false := by decide
+example : guardedLL exNested = true ∧ nestedMergeFreeLL exNested = true ∧ simpleLL exNested = false := by decide
 example : Shape.apply 64 exNested exGdef [0] []
       [⟨2, [97], 0, 0, 0⟩, ⟨1, [98], 0, 0, 0⟩, ⟨3, [99], 0, 0, 0⟩]
-    = .ok ⟨[⟨2, [97], 0, 0, 0⟩, ⟨1, [98], 0, 0, 0⟩, ⟨6, [99], 0, 0, 0⟩], []⟩ := by decide
+    = .ok ⟨[⟨2, [97], 0, 0, 0⟩, ⟨1, [98], 0, 0, 0⟩, ⟨4, [], 0, 0, 0⟩, ⟨4, [], 0, 0, 0⟩, ⟨6, [99], 0, 0, 0⟩], []⟩ := by
+  decide
 example : llGrowth exSimple = 1 := by decide
 example : Shape.apply 64 exSimple exGdef [0, 1] []
       [⟨2, [97], 0, 0, 0⟩, ⟨10, [98], 0, 0, 0⟩, ⟨1, [99], 0, 0, 0⟩]
